@@ -28,10 +28,15 @@ type simDev struct {
 	pendingHold int
 	curHold     int
 	unexpected  []string
+	// preInput, if set, runs before the CLI sees a write (unsolicited output in front of the echo)
+	preInput func(c *devsim.Conn, b []byte)
 }
 
 func (s *simDev) Input(c *devsim.Conn, b []byte) {
 	s.curHold = 0
+	if s.preInput != nil {
+		s.preInput(c, b)
+	}
 	s.CLI.Input(c, b)
 	if s.pendingHold > 0 {
 		c.Hold(s.pendingHold)
@@ -117,6 +122,19 @@ func dialogueDevice(d *Desc) *simDev {
 		return r
 	}
 	cli.Handler = func(_ *devsim.CLI, _ string, line string) devsim.Reply { return react(line) }
+	// console log burst: printed when the first byte of the event's input arrives, ahead of its echo
+	burstDone := map[int]bool{}
+	sd.preInput = func(c *devsim.Conn, b []byte) {
+		if len(b) == 0 || b[0] == '\r' || b[0] == '\n' || cli.InputLine() != "" || idx >= len(steps) {
+			return
+		}
+		st := steps[idx]
+		if st.ev < 0 || burstDone[st.ev] || len(d.Events[st.ev].Burst) == 0 || !strings.HasPrefix(st.line, string(b)) {
+			return
+		}
+		burstDone[st.ev] = true
+		c.Emit([]byte(d.burst(st.ev)))
+	}
 	return sd
 }
 
@@ -341,6 +359,34 @@ func (r *runner) checkDialogue(log []devsim.Event, ws []int, stream string, evs 
 			return r.bad("c12/dialogue-cut-short", "%s: returned without error after the writes %s, expected %d events to be sent", where, fmtWrites(log, ws), sent)
 		}
 		return r.bad("c12/write-sequence:interactive", "%s: device received %s, expected input/return pairs of %d events", where, fmtWrites(log, ws), sent)
+	}
+	// how much the device delivered during each echo phase (input write .. return write) compared
+	// with the window the echo is searched in
+	for k := 0; k < sent; k++ {
+		if evs[k].Hidden || evs[k].Resp == "" {
+			continue
+		}
+		depth := r.d.PSD
+		if 2*len(evs[k].Input) > depth {
+			depth = 2 * len(evs[k].Input)
+		}
+		n := log[ws[2*k+1]].Delivered - log[ws[2*k]].Delivered
+		r.obs["echo_phases"]++
+		r.obs["echo_phase_bytes"] += int64(n)
+		if n > depth {
+			r.obs["echo_phase_bytes_over_depth"]++
+			if !r.d.Exact {
+				r.obs["echo_phase_bytes_over_depth_fuzzy"]++
+			}
+			if r.d.PSD == 1000 {
+				r.obs["echo_phase_bytes_over_default_depth"]++
+			}
+			if len(evs[k].Burst) > 0 {
+				r.tag("echo-phase-over-depth=burst")
+			} else {
+				r.tag("echo-phase-over-depth=previous-tail")
+			}
+		}
 	}
 	// (a) pacing
 	mp := make([]int, sent) // absolute stream offset of the match point of event k's response
